@@ -109,6 +109,22 @@ class Oracle:
                 return "a full iteration over %s (%s) yielded %d keys: deleted / foreign keys %s, missing keys %s" % (
                     dm, "client iterator" if name == "c.scanall" else "raw DM.SCAN cursors", len(got), extra[:8], missing[:8])
             return None
+        if name == "wb.baks":
+            # in the middle of a hand-over whose new backup owner cannot be reached: whoever held a backup copy still does
+            dm = a[0]
+            bak = {}
+            for part in reply.split():
+                m, rest = part.split(":", 1)
+                p, b = rest.split(";")
+                for k in ([] if b[2:] == "-" else b[2:].split(",")):
+                    bak[k] = bak.get(k, 0) + 1
+            R = int(self.cfg.get("r", 1))
+            self.hit("handover_to_unreachable_backup_owner")
+            for k in sorted(k for (d, k) in self.exp if d == dm):
+                if bak.get(k, 0) < R - 1:
+                    return ("DMap %s: key %s has %d backup copies while the hand-over to a new backup owner that cannot be reached is pending, "
+                            "%d before it started: a sender dropped a table that one of its receivers never got" % (dm, k, bak.get(k, 0), R - 1))
+            return None
         if name == "wb.keys":
             dm = a[0]
             prim, bak = {}, {}
@@ -140,7 +156,33 @@ class Gen:
     def __init__(self, rng, tier="quick"):
         self.rng = rng
 
+    def unreachable_receiver(self, orc):
+        """directed: three members with three copies of everything, a fourth joins and becomes a backup owner of some
+        partitions - but it cannot be reached when the previous backup owners hand their fragments over (to it AND to the
+        backup owner that stays).  Nobody may drop what the newcomer did not get."""
+        r = self.rng
+        yield "watchdog 300s"
+        yield "clock 0"
+        yield "c.new n=3 r=3 w=1 rq=1 rr=0 parts=%d tsize=%d" % (r.choice([5, 7]), r.choice([256, 512]))
+        keys = [(d, hx(b"r%d" % i)) for d in DMS for i in range(8)]
+        for i, (d, key) in enumerate(keys):
+            yield "c.put emb %d %s %s %s" % (r.randrange(3), d, key, hx(b"v%d" % i + b"z" * r.choice([0, 30, 90])))
+        yield "c.add nosync"
+        rep = yield "c.converge"
+        if rep == "not-converged":
+            return
+        yield "c.update"
+        yield "c.unreach 3"
+        for _ in range(3):
+            for m in (0, 1, 2):
+                yield "c.balance %d" % m
+        for d in DMS:
+            yield "wb.baks %s" % d
+
     def episode(self, orc, nops):
+        if getattr(self, "ep", 0) % 4 == 3:
+            yield from self.unreachable_receiver(orc)
+            return
         r = self.rng
         R = r.choice([1, 2, 2, 3])
         n0 = r.choice([1, 2, 3, 3])
